@@ -3,7 +3,7 @@
 The real pretty_print_notebook, pretty_print_notebook_diff and
 pretty_print_merge_decisions are executed symbolically on generated notebooks,
 their diffs (diff_notebooks of edit-script pairs) and merge decisions
-(decide_notebook_merge of the 38 conflict scripts under inline / mergetool /
+(decide_notebook_merge of the 40 conflict scripts under inline / mergetool /
 use-local), writing to a StringIO, under: the 64 include-flag subsets, colour
 on/off, --color-words on/off and the text renderer in {git diff, diff,
 built-in difflib} (selected by stubbing `which` in nbdime.prettyprint; the
@@ -49,7 +49,7 @@ def main():
         "flags: 64 include subsets x colour x color-words x 9 actions x ids on 3 (renderer, template) combinations "
         "(18 thorough); actions: every applicable action on 6 (14) templates under 4 (renderer, include) configurations; "
         "a two-cell base and a JSON-payload base with insertions and notebook-level changes; pathological text "
-        "(marker-looking lines, tool-message-looking lines, non-ASCII) under the 3 renderers; decisions of 38 conflict "
+        "(marker-looking lines, tool-message-looking lines, non-ASCII) under the 3 renderers; decisions of 40 conflict "
         "scripts x 3 strategies x 16 (64) include subsets x colour")
     chk.outside += ["notebooks larger than two cells", "text outside the pools", "terminal encodings (output is a StringIO)"]
     chk.stubs += ["nbdime.prettyprint.which -> renderer selector (real git / diff subprocesses run)",
